@@ -748,6 +748,32 @@ impl<'tcx> Cx<'tcx> {
         J::Arr(out)
     }
 
+    /// evaluated values of local `const` / associated `const` items (strings and scalars)
+    fn consts(&self) -> J {
+        let tcx = self.tcx;
+        let mut out: Vec<J> = Vec::new();
+        for def in tcx.hir_body_owners() {
+            let did = def.to_def_id();
+            if !matches!(tcx.def_kind(did), DefKind::Const { .. } | DefKind::AssocConst { .. }) {
+                continue;
+            }
+            if tcx.generics_of(did).requires_monomorphization(tcx) {
+                continue;
+            }
+            let ty = tcx.type_of(did).instantiate_identity().skip_norm_wip();
+            let val = std::panic::catch_unwind(std::panic::AssertUnwindSafe(|| tcx.const_eval_poly(did)));
+            if let Ok(Ok(cv)) = val {
+                let c = rustc_middle::mir::Const::Val(cv, ty);
+                out.push(J::obj(vec![
+                    ("path", s(self.path(did))),
+                    ("ty", s(self.ty_str(ty))),
+                    ("value", s(self.disp(c))),
+                ]));
+            }
+        }
+        J::Arr(out)
+    }
+
     fn impls(&self) -> J {
         let tcx = self.tcx;
         let mut out: Vec<J> = Vec::new();
@@ -843,6 +869,7 @@ fn export<'tcx>(tcx: TyCtxt<'tcx>, out_dir: &str) {
         ("unsafe_code_level", s(lint_forbid_unsafe)),
         ("n_bodies", n(bodies.len() as i128)),
         ("bodies", J::Arr(bodies)),
+        ("consts", cx.consts()),
         ("adts", cx.adts()),
         ("impls", cx.impls()),
     ]);
